@@ -39,6 +39,7 @@ pub enum G {
     Lc,
     Buf(&'static str), // template: sequence of 'c' / 's' pushes after the initial string
     BufNew(&'static str),
+    BufSeq(&'static str), // operation history (see runners::buf_templates); argument 0 is the template
     Lu,
     LuX,
     LuI,
@@ -88,6 +89,10 @@ pub const STRS: &[&str] = &[
 
 const ALPHABET: &[char] = &[
     'a', 'b', ' ', '\n', '\r', 'é', 'ß', '日', '😀', '\u{301}', '\t', 'A', 'Z', ',', '\u{a0}', 'İ', '!', 'x', '\n', 'Σ',
+    // Unicode special-casing classes: title-case digraph, ligature, dotless i, final sigma, Kelvin sign (3 bytes -> 1),
+    // U+023A (2 bytes -> 3), U+0149 (expands), ypogegrammeni (Other_Lowercase combining mark), Other_Uppercase numeral,
+    // title-case Greek (expands both ways), non-ASCII White_Space and a zero-width look-alike
+    'ǅ', 'ﬁ', 'ı', 'ς', '\u{212a}', 'Ⱥ', 'ŉ', '\u{345}', 'Ⅰ', 'ᾈ', '\u{2028}', '\u{200b}', '1',
 ];
 
 pub const F64S: &[f64] = &[
@@ -123,6 +128,49 @@ pub fn corpus() -> Vec<(&'static str, Vec<A>)> {
         ("StringLines.slice", vec![A::S("a\nb".into()), A::U(2), A::U(2)]),
     ]
 }
+
+/// Class representatives that run FIRST for a built-in, independent of the seed
+/// (after the corpus of known witnesses): one subject per argument class that
+/// the built-in's documented meaning distinguishes.
+pub fn reps(name: &str) -> Vec<Vec<A>> {
+    match name {
+        // one string per case-mapping signature of std (x context), plus the context-sensitive mappings
+        "String.to_lowercase" | "String.to_uppercase" => crate::unicode::case_strings().into_iter().map(|s| vec![A::S(s)]).collect(),
+        // every White_Space code point and its look-alikes at both ends
+        "String.trim" | "String.trim_start" | "String.trim_end" => crate::unicode::ws_strings().into_iter().map(|s| vec![A::S(s)]).collect(),
+        // comparisons are by code point sequence: pairs that are canonically / compatibility / case-insensitively
+        // equivalent, or differ by an invisible char, must NOT be identified (both orders, bare and embedded)
+        "String.eq" | "String.contains" | "String.starts_with" | "String.ends_with" | "String.strip_prefix" | "String.strip_suffix" | "String.split" => {
+            let mut out = vec![];
+            for (a, b) in crate::unicode::NEAR_EQUAL {
+                for (x, y) in [(a, b), (b, a)] {
+                    out.push(vec![A::S(x.to_string()), A::S(y.to_string())]);
+                    out.push(vec![A::S(format!("p{x}q{x}")), A::S(y.to_string())]);
+                    out.push(vec![A::S(format!("{x}q")), A::S(y.to_string())]);
+                    out.push(vec![A::S(format!("p{x}")), A::S(y.to_string())]);
+                }
+            }
+            out
+        }
+        // IEEE special values x special values: a fast path keyed on one exponent/base value lives in one cell of this grid
+        "f64.pow" => {
+            let t = FLOAT_GRID;
+            t.iter().flat_map(|x| t.iter().map(move |y| vec![A::F64(x.to_bits()), A::F64(y.to_bits())])).collect()
+        }
+        "f32.pow" => {
+            let t = FLOAT_GRID;
+            t.iter().flat_map(|x| t.iter().map(move |y| vec![A::F32((*x as f32).to_bits()), A::F32((*y as f32).to_bits())])).collect()
+        }
+        _ => vec![],
+    }
+}
+
+/// bases / exponents at which pow has a case of its own in IEEE 754 / C99 (and the usual algebraic shortcuts:
+/// 0, 1, -1, 1/2, 2, 3, 1/3, odd/even integers, huge, tiny, infinities, NaN)
+const FLOAT_GRID: &[f64] = &[
+    0.0, -0.0, 1.0, -1.0, 0.5, -0.5, 2.0, -2.0, 3.0, -3.0, 0.25, 1.5, 1.0 / 3.0, 4.0, 10.0, 1e-300, -1e-300, 1e300, -1e300,
+    f64::INFINITY, f64::NEG_INFINITY, f64::NAN, 5e-324, 9007199254740993.0, 0.9999999999999999,
+];
 
 fn view_len(v: View, s: &str) -> u64 {
     match v {
@@ -189,6 +237,14 @@ pub fn classify(name: &str, a: &[A]) -> String {
         };
     }
     let mut parts = vec![];
+    match name {
+        // the documented meaning of these depends on a per-code-point Unicode property only: that is the class
+        "String.to_lowercase" | "String.to_uppercase" => return crate::unicode::str_case_class(a[0].s()),
+        "String.trim" | "String.trim_start" | "String.trim_end" => return crate::unicode::str_ws_class(a[0].s()),
+        // a history: its shape is in the name; the class is what it starts from
+        _ if name.contains('#') => return format!("init={}", if a[0].s().starts_with('N') { "new" } else { str_class(a[1].s()) }),
+        _ => {}
+    }
     for x in a {
         parts.push(match x {
             A::S(s) => str_class(s).to_string(),
@@ -471,6 +527,16 @@ impl Gen {
                     }
                 }
                 v
+            }
+            G::BufSeq(t) => {
+                let cs = ['x', 'é', '😀', '\u{301}', '\n', ',', '日', 'ǅ'];
+                let a = self.string(k);
+                let c1 = cs[(k as usize) % cs.len()];
+                let c2 = cs[(k as usize / 2 + 3) % cs.len()];
+                // short, distinguishable pushes (an empty one every fifth case)
+                let s1 = if k % 5 == 4 { String::new() } else { self.string(k * 3 + 7) };
+                let s2 = if k % 7 == 6 { String::new() } else { self.rand_string() };
+                vec![A::S(t.to_string()), A::S(a), A::C(c1), A::C(c2), A::S(s1), A::S(s2)]
             }
             G::Lu => vec![A::Lu(self.ulist(k))],
             G::LuX => {
